@@ -421,9 +421,11 @@ pub struct BloomCase {
 
 pub fn bloom_strategy() -> BoxedStrategy<BloomCase> {
     let cap = prop_oneof![
-        3 => 1usize..=70,
-        2 => proptest::sample::select(vec![1usize, 2, 63, 64, 65, 127, 128, 129, 255, 256, 257, 511, 512, 513, 1000, 1023, 1024, 1025, 4096, 5000]),
-        1 => 50usize..5000,
+        3000 => 1usize..=70,
+        2000 => proptest::sample::select(vec![1usize, 2, 63, 64, 65, 127, 128, 129, 255, 256, 257, 511, 512, 513, 1000, 1023, 1024, 1025, 4096, 5000]),
+        1000 => 50usize..5000,
+        // (rare, a second or so each: filters for hundreds of thousands to millions of entries)
+        3 => proptest::sample::select(vec![300_000usize, 1_000_000, 2_500_000]),
     ];
     let op = prop_oneof![
         6 => any::<u8>().prop_map(BlOp::Add),
@@ -527,10 +529,27 @@ fn run_bloom_inner(c: &BloomCase) -> Result<CompFeats, String> {
         let mut bl = sv::Bloom::new(c.cap, rate);
         let mut s = c.fp_seed;
         let mut members = std::collections::HashSet::new();
-        while members.len() < c.cap {
-            let h = splitmix(&mut s);
-            members.insert(h);
-            bl.add(h);
+        if c.cap > 100_000 {
+            // large filters: the members are the first `cap` values of the sequence (distinct but for
+            // a negligible chance), every 997th is re-checked, the probes are the values after them
+            let s0 = s;
+            for _ in 0..c.cap {
+                bl.add(splitmix(&mut s));
+            }
+            let mut s2 = s0;
+            for i in 0..c.cap {
+                let h = splitmix(&mut s2);
+                if i % 997 == 0 && !bl.contains(h) {
+                    return Err(format!("[false_negative] cap {} rate {}: random hash {:#x} added and reported absent", c.cap, rate, h));
+                }
+            }
+            feats.classes.push("large_capacity");
+        } else {
+            while members.len() < c.cap {
+                let h = splitmix(&mut s);
+                members.insert(h);
+                bl.add(h);
+            }
         }
         for h in members.iter() {
             if !bl.contains(*h) {
